@@ -1423,6 +1423,8 @@ pub fn array_from(
     let _map_fn_guard = map_fn.as_ref().and_then(|m| interp.guard_value(m));
 
     let mut elements = Vec::new();
+    // Keeps mapped values alive while more user code runs
+    let result_guard = interp.heap.create_guard();
 
     match source {
         JsValue::Object(obj) => {
@@ -1537,8 +1539,51 @@ pub fn array_from(
                             }
                         }
                     }
+                } else {
+                    // Not iterable: an array-like object, read through length and indices
+                    let length_key = PropertyKey::String(interp.intern("length"));
+                    let length_val = obj
+                        .borrow()
+                        .get_property(&length_key)
+                        .unwrap_or(JsValue::Undefined);
+                    let length = interp.coerce_to_number(&length_val)?;
+                    let length = if length.is_nan() || length <= 0.0 {
+                        0usize
+                    } else if length > 4294967295.0 {
+                        return Err(JsError::range_error("Invalid array length"));
+                    } else {
+                        length as usize
+                    };
+                    for i in 0..length {
+                        let elem = obj
+                            .borrow()
+                            .get_property(&PropertyKey::Index(i as u32))
+                            .or_else(|| {
+                                obj.borrow().get_property(&PropertyKey::String(
+                                    JsString::from(i.to_string()),
+                                ))
+                            })
+                            .unwrap_or(JsValue::Undefined);
+                        let mapped = match &map_fn {
+                            Some(map) if map.is_callable() => {
+                                let Guarded {
+                                    value: mapped_val,
+                                    guard: _mapped_guard,
+                                } = interp.call_function(
+                                    map.clone(),
+                                    JsValue::Undefined,
+                                    &[elem, JsValue::Number(i as f64)],
+                                )?;
+                                mapped_val
+                            }
+                            _ => elem,
+                        };
+                        if let JsValue::Object(o) = &mapped {
+                            result_guard.guard(o.cheap_clone());
+                        }
+                        elements.push(mapped);
+                    }
                 }
-                // If no iterator, elements remains empty (array-like objects would need length property)
             }
         }
         JsValue::String(s) => {
@@ -1563,6 +1608,11 @@ pub fn array_from(
                 };
                 elements.push(mapped);
             }
+        }
+        JsValue::Undefined | JsValue::Null => {
+            return Err(JsError::type_error(
+                "Array.from requires an array-like or iterable object",
+            ));
         }
         _ => {}
     }
